@@ -3001,8 +3001,10 @@ func lemmaForwardSession(raw *rawEnvelope) (e *Session, e3 *Session, accepted bo
 //@   ensures (result == nil) == (t.conn != nil && !t.eof)
 //@   modifies nothing
 
+// The constructors and setConn establish the representation invariant (tcpInv) that
+// Send/Receive require: they belong to every property Send/Receive belong to.
 //@ func (*tcpTransport).setConn :: (t, conn) ()
-//@   props C12 C16
+//@   props C01 C04 C12 C16
 //@   requires t != nil && conn != nil && t.ReadLimit >= 0
 //@   modifies t.conn, t.ctxConn, t.encoder, t.decoder, t.limitedReader, t.ReadLimit, t.limitedReader.consumed
 //@   ensures [C12,C16] @armed tcpInv(t) && t.limitedReader.N == t.ReadLimit  ## in particular the decoder reads through the very budget that Receive re-arms (C12: an intact stream is never cut by the transport itself)
@@ -3051,7 +3053,7 @@ func lemmaForwardSession(raw *rawEnvelope) (e *Session, e3 *Session, accepted bo
 // SetEncryption against the Transport model (t.enc is t.encryption, t.connected is
 // t.conn != nil && !t.eof): the option reported in force is the one asked for.
 //@ func (*tcpTransport).SetEncryption :: (t, ctx, e) (result)
-//@   props C09 C10 C16
+//@   props C01 C04 C09 C10 C12 C16
 //@   requires t != nil && ctx != nil && t.conn != nil && !t.eof && t.ReadLimit >= 0
 //@   modifies t.conn, t.ctxConn, t.encoder, t.decoder, t.limitedReader, t.ReadLimit, t.limitedReader.consumed, t.encryption
 //@   ensures [C09] @inforce result == nil ==> t.encryption == e
@@ -3076,7 +3078,7 @@ func lemmaForwardSession(raw *rawEnvelope) (e *Session, e3 *Session, accepted bo
 //@   ensures (result == nil) == (l.listener != nil)
 
 //@ func (*tcpTransportListener).Accept :: (l, ctx) (result0, result1)
-//@   props C09 C16
+//@   props C01 C04 C09 C12 C16
 //@   requires l != nil && ctx != nil && l.ReadLimit >= 0
 //@   modifies nothing
 //@   ensures [C16] @armed result1 == nil ==> istype(result0, *tcpTransport) && tcpNew(result0.(*tcpTransport), l.ReadLimit)
@@ -3096,7 +3098,7 @@ func lemmaForwardSession(raw *rawEnvelope) (e *Session, e3 *Session, accepted bo
 //@   ensures result == nil ==> l.listener != nil && l.connChan != nil && l.done != nil
 
 //@ func DialTcp :: (ctx, addr, config) (result0, result1)
-//@   props C09 C16
+//@   props C01 C04 C09 C12 C16
 //@   requires ctx != nil && addr != nil && (config != nil ==> config.ReadLimit >= 0)
 //@   modifies nothing
 //@   ensures [C16] @armed result1 == nil ==> istype(result0, *tcpTransport) && tcpNew(result0.(*tcpTransport), ite(config == nil, 0, config.ReadLimit))
